@@ -14,6 +14,9 @@ warnings.filterwarnings("ignore", category=SyntaxWarning)
 import numpy as np  # noqa: E402
 import dnplab as dnp  # noqa: E402
 
+np.seterr(all="ignore")        # overflow / invalid in deliberately extreme parameter ranges is classified, not printed
+warnings.filterwarnings("ignore", category=RuntimeWarning)
+
 assert os.path.abspath(dnp.__file__).startswith(os.path.abspath(REPO) + os.sep), dnp.__file__
 
 
